@@ -4,12 +4,19 @@
    is captured for %w unless the call was HelperForErrorf, and the buffer is exactly a new
    one after Take; so the next call starts from the state a fresh printer has, apart from the
    formatting flags, which clearflags (as repaired: also width and precision) re-initialises
-   before any directive is interpreted.  In the model every entry point starts from that
-   state; that the pooled printers of the implementation are in it is compared on histories.
+   before any directive is interpreted.
+   THE FRAME THEOREM: a printer that went through free() and newPrinter() differs from a new one
+   only in the fields reordered and goodArgNum; no call of the evaluator reads them before
+   doPrintf has written them (C12_two_fields_are_never_read_first: every call maps states that
+   agree elsewhere to equal results); hence a call run on a recycled printer returns exactly what
+   it returns on a new one (C12_recycled_printer_frame), after ANY history of earlier calls on
+   that printer, whatever they printed, panicked with or captured (C12_history_independence).
+   That free()/newPrinter() reset the fields [recycle] says they reset is compared on histories
+   (probes against a fresh process, post-call churn after every printer case).
    NOT claimed as a theorem: schedules and data races (the model has no threads): runtime
    evidence only - 16 goroutines, results compared with a fresh process (_partial). *)
 From Redact Require Import Bytes Tokens Utf8 Buffer Ops BufInv LBuf Printer Api.
-From Redact Require Import BufInvP BufferThm Hoare Keeps WrapP.
+From Redact Require Import BufInvP BufferThm Hoare Keeps WrapP FrameP.
 Import List ListNotations.
 
 Theorem C12_override_is_none_when_the_printer_is_recycled : forall fuel env c,
@@ -36,6 +43,33 @@ Proof.
   destruct s; cbn. repeat split. apply lmode_setmode.
 Qed.
 Print Assumptions C12_nested_printers_do_not_leak_state_partial.
+
+Theorem C12_two_fields_are_never_read_first : forall fuel env c s1 s2,
+  jrel s1 s2 ->
+  fst (ev fuel env c s1) = fst (ev fuel env c s2) /\ jrel (snd (ev fuel env c s1)) (snd (ev fuel env c s2)).
+Proof. intros fuel env c. exact (jins_ev fuel env c). Qed.
+Print Assumptions C12_two_fields_are_never_read_first.
+
+Theorem C12_recycled_printer_frame : forall fuel env c s0,
+  povr s0 = NoOvr -> finish (ev fuel env c (recycle s0)) = finish (ev fuel env c newPrinter).
+Proof. exact recycled_printer_frame. Qed.
+Print Assumptions C12_recycled_printer_frame.
+
+Theorem C12_history_independence : forall fuel env cs c,
+  finish (ev fuel env c (recycle (run_history fuel env cs newPrinter))) = finish (ev fuel env c newPrinter).
+Proof. exact history_independence. Qed.
+Print Assumptions C12_history_independence.
+
+(* Non-vacuity: a history with argument indexes (reordered := true), a bad index (goodArgNum :=
+   false) and a panicking method, then a probe: the recycled printer is not equal to a new one,
+   yet the probe's result is *)
+Example C12_history_nonvacuous :
+  let ti := mkT [105;110;116]%N false false in
+  let h := [CDoPrintf [37;91;50;93;100;32;37;91;57;93;100]%N [VInt ti 1%Z; VInt ti 2%Z]] in
+  let s := recycle (run_history 20 (mkEnv [] None) h newPrinter) in
+  s <> newPrinter /\
+  finish (ev 20 (mkEnv [] None) (CDoPrintf [37;100]%N [VInt ti 7%Z]) s) = finish (ev 20 (mkEnv [] None) (CDoPrintf [37;100]%N [VInt ti 7%Z]) newPrinter).
+Proof. split; [vm_compute; discriminate | apply C12_history_independence]. Qed.
 
 Example C12_nonvacuous :
   let t := mkT [85]%N false false in
